@@ -97,22 +97,34 @@ def updateNodeOuts (s : Store Ω μ) (i : Nat) (k : Nat) : Except Err (Store Ω 
     | none => .error .valueError
     | some cs => modifyNode s p (fun pd => { pd with children := cs })
 
+/-- Slot allocation of `_add_node`: pop the free stack, else append. -/
+def allocSlot (s : Store Ω μ) (d : NodeData Ω μ) : Store Ω μ × Nat :=
+  match s.free.getLast? with
+  | some i => ({ s with free := s.free.dropLast, nodes := s.nodes.set i (some d) }, i)
+  | none => ({ s with nodes := s.nodes ++ [some d] }, s.nodes.length)
+
+/-- `if parent: self[parent].children.append(node)` -/
+def registerChild (s : Store Ω μ) (parent : Option Nat) (h : Handle) : Except Err (Store Ω μ) :=
+  match parent with
+  | none => pure s
+  | some p => modifyNode s p (fun pd => { pd with children := pd.children ++ [h] })
+
+/-- `_update_node_outs(node, num_outs)` (no-op for `None`). -/
+def setOutsOpt (s : Store Ω μ) (i : Nat) (numOuts : Option Nat) : Except Err (Store Ω μ) :=
+  match numOuts with
+  | none => pure s
+  | some k => updateNodeOuts s i k
+
 /-- `_add_node(op, parent, num_outs, metadata)`; returns the new index. -/
 def addNodeRaw (s : Store Ω μ) (op : Ω) (parent : Option Nat) (numOuts : Option Nat) (m : μ) :
-    Except Err (Store Ω μ × Nat) := do
-  let d : NodeData Ω μ := { op, parent, numInps := 0, numOuts := 0, children := [], md := m }
-  let (s, i) :=
-    match s.free.getLast? with
-    | some i => ({ s with free := s.free.dropLast, nodes := s.nodes.set i (some d) }, i)
-    | none => ({ s with nodes := s.nodes ++ [some d] }, s.nodes.length)
-  let s ← match parent with
-    | none => pure s
-    | some p => modifyNode s p (fun pd => { pd with children := pd.children ++ [(i, numOuts)] })
-  match numOuts with
-  | none => pure (s, i)
-  | some k => do
-    let s ← updateNodeOuts s i k
-    pure (s, i)
+    Except Err (Store Ω μ × Nat) :=
+  let r := allocSlot s { op, parent, numInps := 0, numOuts := 0, children := [], md := m }
+  match registerChild r.1 parent (r.2, numOuts) with
+  | .error e => .error e
+  | .ok s1 =>
+    match setOutsOpt s1 r.2 numOuts with
+    | .error e => .error e
+    | .ok s2 => .ok (s2, r.2)
 
 /-- `Hugr.__init__`: the root is added with `num_outs = 0`. -/
 def init (rootOp : Ω) (m : μ) : Store Ω μ :=
@@ -232,21 +244,38 @@ def deleteOutLinks (s : Store Ω μ) (node : Nat) : List Int → Except Err (Sto
     let s ← deleteAll s (fun inp => ((node, off), inp)) (linkedOut s (node, off))
     deleteOutLinks s node offs
 
-/-- `delete_node` (as repaired: every incident link is removed, order links included). -/
-def deleteNode (s : Store Ω μ) (node : Nat) : Except Err (Store Ω μ) := do
-  let d ← getNode s node
-  let s ← match d.parent with
-    | none => pure s
-    | some p => do
-      let pd ← getNode s p
+/-- `if parent: self[parent].children.remove(node)` -/
+def detach (s : Store Ω μ) (node : Nat) (parent : Option Nat) : Except Err (Store Ω μ) :=
+  match parent with
+  | none => pure s
+  | some p =>
+    match getNode s p with
+    | .error e => .error e
+    | .ok pd =>
       match removeFirst node pd.children with
       | none => .error .valueError
       | some cs => modifyNode s p (fun pd => { pd with children := cs })
-  let d ← getNode s node
-  let s ← deleteInLinks s node (offsetsFromMinusOne d.numInps)
-  let d ← getNode s node
-  let s ← deleteOutLinks s node (offsetsFromMinusOne d.numOuts)
-  pure { s with nodes := s.nodes.set node none, free := s.free ++ [node] }
+
+/-- `delete_node` (as repaired: every incident link is removed, order links included). -/
+def deleteNode (s : Store Ω μ) (node : Nat) : Except Err (Store Ω μ) :=
+  match getNode s node with
+  | .error e => .error e
+  | .ok d =>
+    match detach s node d.parent with
+    | .error e => .error e
+    | .ok s1 =>
+      match getNode s1 node with
+      | .error e => .error e
+      | .ok d1 =>
+        match deleteInLinks s1 node (offsetsFromMinusOne d1.numInps) with
+        | .error e => .error e
+        | .ok s2 =>
+          match getNode s2 node with
+          | .error e => .error e
+          | .ok d2 =>
+            match deleteOutLinks s2 node (offsetsFromMinusOne d2.numOuts) with
+            | .error e => .error e
+            | .ok s3 => .ok { s3 with nodes := s3.nodes.set node none, free := s3.free ++ [node] }
 
 /-! ### queries -/
 
@@ -268,19 +297,29 @@ def incomingFlat (s : Store Ω μ) (node : Nat) (numInps : Nat) : List (Int × P
 
 /-! ### insert_hugr -/
 
+/-- `mapping[node_data.parent] if node_data.parent else parent` (`KeyError` → `ParentBeforeChild`). -/
+def resolveParent (mp : Dict Nat Nat) (parent : Option Nat) (dp : Option Nat) : Except Err (Option Nat) :=
+  match dp with
+  | some p =>
+    match Dict.get p mp with
+    | some p' => .ok (some p')
+    | none => .error .parentBeforeChild
+  | none => .ok parent
+
 /-- the node-copy loop of `insert_hugr`; `mp` is the mapping built so far (a dict). -/
 def insertNodes (s : Store Ω μ) (b : Store Ω μ) (parent : Option Nat) :
     List Nat → Dict Nat Nat → Except Err (Store Ω μ × Dict Nat Nat)
-  | [], mp => pure (s, mp)
-  | i :: is, mp => do
-    let d ← getNode b i
-    let nodeParent ← match d.parent with
-      | some p => match Dict.get p mp with
-        | some p' => pure (some p')
-        | none => .error .parentBeforeChild
-      | none => pure parent
-    let (s, j) ← addNode s d.op nodeParent (some d.numOuts) d.md
-    insertNodes s b parent is (Dict.set i j mp)
+  | [], mp => .ok (s, mp)
+  | i :: is, mp =>
+    match getNode b i with
+    | .error e => .error e
+    | .ok d =>
+      match resolveParent mp parent d.parent with
+      | .error e => .error e
+      | .ok np =>
+        match addNode s d.op np (some d.numOuts) d.md with
+        | .error e => .error e
+        | .ok r => insertNodes r.1 b parent is (Dict.set i r.2 mp)
 
 def insertLinks (s : Store Ω μ) (mp : Dict Nat Nat) : List (SubPort × SubPort) → Except Err (Store Ω μ)
   | [] => pure s
